@@ -62,14 +62,21 @@ def mapLast (f : Nat → Nat) : List Nat → List Nat
 def maskMSU (w n : Nat) (l : List Nat) : List Nat := mapLast (fun x => x &&& msuMask w n) l
 
 /-- limb carry chain of `operator+=`:
-    `carry += (u64)a + (u64)b; *pC = (bt)carry; carry >>= bitsInBlock`.
-    `drop` is integer's `if constexpr (bitsInBlock == 64) carry = 0` line (integer_impl.hpp:291); it is
-    passed as `w == 64`, the only case in which the 64-bit accumulator could wrap (for w ≤ 32 the sum of
-    two limbs and a carry bit fits), and then the stored limb `(bt)carry` is `s % 2^w` all the same. -/
-def addLoop (w : Nat) (drop : Bool) : Nat → List Nat → List Nat → List Nat
+    `carry += (u64)a + (u64)b; *pC = (bt)carry; carry >>= bitsInBlock`  (blockbinary, and integer on 8/16/32-bit blocks:
+    the sum of two limbs and a carry bit fits the 64-bit accumulator).
+    `u64` is integer's `if constexpr (bitsInBlock == 64)` branch (integer_impl.hpp:289-295, passed as `w == 64`; repaired in
+    "fix: integer operator+= must propagate the carry between uint64_t blocks" — the branch used to be `carry = 0`): the
+    64-bit accumulator wraps, so `partial = carry + a; total = partial + b` in `uint64_t` arithmetic (modulo 2^w, w = 64 there),
+    `carry = (partial < carry) + (total < partial)`, `*pC = total`. -/
+def addLoop (w : Nat) (u64 : Bool) : Nat → List Nat → List Nat → List Nat
   | c, a :: as, b :: bs =>
-    let s := c + a + b
-    (s % 2 ^ w) :: addLoop w drop (if drop then 0 else s / 2 ^ w) as bs
+    if u64 then
+      let part := (c + a) % 2 ^ w
+      let total := (part + b) % 2 ^ w
+      total :: addLoop w u64 ((if part < c then 1 else 0) + (if total < part then 1 else 0)) as bs
+    else
+      let s := c + a + b
+      (s % 2 ^ w) :: addLoop w u64 (s / 2 ^ w) as bs
   | _, _, _ => []
 
 /-- `_block[i] = bt(~_block[i])` for every block -/
@@ -194,7 +201,7 @@ def gt (w n : Nat) (a b : List Nat) : Bool := !(le w n a b)
 def ge (w n : Nat) (a b : List Nat) : Bool := !(lt w n a b)
 
 /-- `operator<<=` for a positive count (blockbinary.hpp:411-446): `_block[MSU] &= MSU_MASK` on both exits
-    (repaired in 433c6a0, was defect D7) -/
+    (repaired in fd17b6d, was defect D7) -/
 def shlPos (w n : Nat) (a : List Nat) (s : Nat) : List Nat :=
   if s > n then zeros a.length
   else
@@ -276,24 +283,26 @@ def longdivision (w n : Nat) (a b : List Nat) : List Nat × List Nat :=
       let r := if sign w n a then assign w n N (twosC w N acc) else assign w n N acc
       (q, r)
 
-/-- native `int<w>_t` division of the exact-fit single block; `none` = the hardware traps
-    (most negative / −1 in 32 and 64 bit; 8 and 16 bit operands are promoted to `int`) -/
-def nativeDiv (w : Nat) (x y : Nat) (rem : Bool) : Option Nat :=
-  let a := toSigned w x
-  let b := toSigned w y
-  if w ≥ 32 && a == -(2 ^ (w - 1) : Nat) && b == -1 then none
-  else some (ofSigned w (if rem then Int.tmod a b else Int.tdiv a b))
+/-- native division of the exact-fit single block (blockbinary.hpp:338-352, integer_impl.hpp:421-435 and the `%=` twins).
+    A divisor of all ones (−1) is not handed to the hardware — most-negative / −1 overflows `int32_t` / `int64_t` and traps —
+    but negated in the block type: quotient `bt(0 - block)`, remainder 0 (repaired in "fix: integer / blockbinary operator/=
+    and %= native fast path must not trap on most negative / -1"); every other divisor: `int<w>_t(a) / int<w>_t(b)`, stored
+    back into the block (8 and 16 bit operands are promoted to `int`, the result is truncated all the same). -/
+def nativeDiv (w : Nat) (x y : Nat) (rem : Bool) : Nat :=
+  if y == 2 ^ w - 1 then (if rem then 0 else (2 ^ w - x) % 2 ^ w)
+  else
+    let a := toSigned w x
+    let b := toSigned w y
+    ofSigned w (if rem then Int.tmod a b else Int.tdiv a b)
 
-/-- `operator/=` / `operator%=` (blockbinary.hpp:332-383) -/
-def divrem (w n : Nat) (a b : List Nat) (rem : Bool) : Option (List Nat) :=
+/-- `operator/=` / `operator%=` (blockbinary.hpp:332-389) -/
+def divrem (w n : Nat) (a b : List Nat) (rem : Bool) : List Nat :=
   if n = w then
-    if iszero b then some (ofInt64 w n 0)
-    else match nativeDiv w (blk a 0) (blk b 0) rem with
-      | none => none
-      | some q => some [q &&& msuMask w n]
+    if iszero b then ofInt64 w n 0
+    else [nativeDiv w (blk a 0) (blk b 0) rem &&& msuMask w n]
   else
     let (q, r) := longdivision w n a b
-    some (if rem then r else q)
+    if rem then r else q
 
 def uradd (w n : Nat) (a b : List Nat) : List Nat := add w (n + 1) (assign w (n + 1) n a) (assign w (n + 1) n b)
 def ursub (w n : Nat) (a b : List Nat) : List Nat := sub w (n + 1) (assign w (n + 1) n a) (assign w (n + 1) n b)
